@@ -87,7 +87,7 @@ mod vharness {
     #[kani::unwind(4)]
     fn rmkey_canary() {
         let (same, _, _) = run("a", any_a());
-        assert!(!same, "canary:rmkey:always-a-new-object");
+        assert!(same, "canary:rmkey:never-a-new-object");
     }
 }
 } // mod u
